@@ -279,6 +279,12 @@ class ConsumerMdib(mdibbase.MdibBase):
                             buffered_report.mdib_version_group.sequence_id,
                         )
                         continue
+                    if buffered_report.mdib_version_group.instance_id != self.instance_id:
+                        self.logger.debug(
+                            'wrong instance id "%s"; ignore buffered report',
+                            buffered_report.mdib_version_group.instance_id,
+                        )
+                        continue
                     if buffered_report.mdib_version_group.mdib_version <= loaded_mdib_version:
                         self.logger.debug(
                             'older mdib version "%d"; ignore buffered report',
